@@ -782,6 +782,41 @@ def leg_flavours(progs, flavours, jobs=16):
 
 
 # ---------------------------------------------------------------------------------------------
+# a failing mmap(2) (C13 / C03): the writers fall back to plain writes
+# ---------------------------------------------------------------------------------------------
+
+def leg_mmap_failure(progs, flavours, monitors, jobs=8):
+    """Every program runs with an LD_PRELOAD shim that makes each file-backed MAP_SHARED mapping fail
+    (ENODEV), i.e. on the writers' fall-back path after `MmapMut::map_mut` failed.  The same monitors
+    as without the fault judge the outcome (declared sizes honoured, content area valid, read-back)."""
+    failures, samples = [], []
+    kinds = set()
+    wrapper = ["env", f"LD_PRELOAD={C.build_shim()}", "FAIL_SHARED_MMAP=1"]
+    tasks = [(p, fl) for p in progs for fl in flavours[:1]]
+
+    def one(t):
+        p, fl = t
+        out, rc = E.run_impl(fl, p.text(), wrapper=wrapper)
+        return E.RunResult(p, fl, out, None, p.ops)
+    with ThreadPoolExecutor(max_workers=jobs) as ex:
+        results = list(ex.map(one, tasks))
+    for rr in results:
+        for m in monitors:
+            try:
+                for f in m(rr):
+                    f.detail = "with failing mmap(2): " + f.detail
+                    f.replay_text = "# run with LD_PRELOAD=harness/target/failmmap.so FAIL_SHARED_MMAP=1\n" + rr.prog.text()
+                    failures.append(f)
+            except KeyError:
+                pass
+        kinds.add(E.signature(rr))
+        if len(samples) < 2:
+            samples.append({"binary": rr.flavour, "ops": rr.prog.ops[:4], "impl": [l[:100] for l in rr.impl[:4]], "mmap": "fails"})
+    return {"failures": failures, "disagreements": [], "evaluations": len(results), "distinct_nontrivial": len(kinds),
+            "samples": samples, "mmap_failure_runs": len(results)}
+
+
+# ---------------------------------------------------------------------------------------------
 # short writes (C13): RLIMIT_FSIZE makes a write(2) return short, the retry fail with EFBIG
 # ---------------------------------------------------------------------------------------------
 
